@@ -8,7 +8,7 @@ namespace Sf.Ircam
 open Sf Sf.Small Sf.Float
 
 theorem f32WriteBytes_length (b : Nat) : (Ieee.f32WriteBytes b).length = 4 := by
-  unfold Ieee.f32WriteBytes Ieee.f32WriteBytesWith; split <;> rfl
+  unfold Ieee.f32WriteBytes Ieee.f32FieldBytes; rfl
 
 theorem f32BeWrite_length (b : Nat) : (Ieee.f32BeWrite b).length = 4 := f32WriteBytes_length b
 theorem f32LeWrite_length (b : Nat) : (Ieee.f32LeWrite b).length = 4 := by
@@ -16,8 +16,8 @@ theorem f32LeWrite_length (b : Nat) : (Ieee.f32LeWrite b).length = 4 := by
 
 /-- the little-endian writer / reader pair computes what the big-endian pair computes -/
 theorem le_read_write (b : Nat) : Ieee.f32LeRead (Ieee.f32LeWrite b) = Ieee.f32BeRead (Ieee.f32BeWrite b) := by
-  unfold Ieee.f32LeWrite Ieee.f32BeWrite Ieee.f32WriteBytes Ieee.f32WriteBytesWith
-  split <;> rfl
+  unfold Ieee.f32LeWrite Ieee.f32BeWrite Ieee.f32WriteBytes Ieee.f32FieldBytes
+  rfl
 
 theorem hdr_length (c : Cfg) : (hdr c).length = hdrLen := by
   unfold hdr hdrLen
